@@ -940,7 +940,7 @@ def parse_shape(shape: Shape) -> Tuple[int, ...]:
     """
     # FIXME do we care to map numpy ints to python ints?
     if isinstance(shape, (int, np.integer)):
-        return (shape,)
+        return (int(shape),)
     if isinstance(shape, np.ndarray):
         if not np.issubdtype(shape.dtype, np.integer):
             raise ValueError("Numpy arrays used as shapes must be integer valued")
@@ -957,7 +957,8 @@ def parse_shape(shape: Shape) -> Tuple[int, ...]:
     shape = tuple(shape)
     if not all(isinstance(ele, (int, np.integer)) for ele in shape):
         raise ValueError("Shapes entries must be integers")
-    return shape
+    # Python ints: sizes get multiplied, which must not happen in a narrow numpy dtype
+    return tuple(int(ele) for ele in shape)
 
 
 def parse_one_d(maybe_vector: OneDArray) -> np.ndarray:
